@@ -189,7 +189,10 @@ class StmtMixin:
         for st1, v in self.ev(s.value, st):
             if isinstance(v, V) and isinstance(s.target, ast.Name):
                 try:
-                    v = coerce(v, self.ct.parse(s.annotation))
+                    ann = ast.unparse(s.annotation)
+                    for a_, b_ in getattr(self, "cur_type_map", {}).items():
+                        ann = ann.replace(a_, b_)
+                    v = coerce(v, self.ct.parse(ann))
                 except EngineError:
                     pass
             yield Outcome("ok", self.store(st1, s.target, v, s.value))
@@ -453,7 +456,13 @@ class StmtMixin:
             head = head.assume(self.spec_bool(inv, head))
         m0 = None
         if spec.decreases:
-            m0 = coerce(self.spec_eval(spec.decreases, head), INT).z
+            mv_, max_ = self.spec_eval_full(spec.decreases, head)
+            for a_ in max_:
+                head = head.assume(a_)
+            if self.spec_cards:
+                head = head.fork()
+                head.ghost["$cards"] = self.spec_cards
+            m0 = coerce(mv_, INT).z
         for st1, c in self.ev(s.test, head):
             tc = truth(self.as_value(c))
             st_in, st_out = st1.assume(tc), st1.assume(z3.Not(tc))
@@ -467,8 +476,12 @@ class StmtMixin:
                             self.oblige(o.st, "inv-step", f"#{ordn}.{i}", self.spec_goal(inv, o.st),
                                         descr=f"loop invariant {inv!r} preserved", node=s)
                         if m0 is not None:
-                            m1 = coerce(self.spec_eval(spec.decreases, o.st), INT).z
-                            self.oblige(o.st, "dec", f"#{ordn}", m1 < m0, descr="termination measure decreases", node=s)
+                            mv_, max_ = self.spec_eval_full(spec.decreases, o.st)
+                            end_ = o.st
+                            for a_ in max_:
+                                end_ = end_.assume(a_)
+                            m1 = coerce(mv_, INT).z
+                            self.oblige(end_, "dec", f"#{ordn}", m1 < m0, descr="termination measure decreases", node=s)
                     elif o.kind == "brk":
                         yield Outcome("ok", o.st)
                     else:
@@ -515,6 +528,10 @@ class StmtMixin:
             ghost0 = {"_done": empty, "_dom": domv}
         else:
             ghost0 = {"_i": mk_int(0), "_n": mk_int(d.length)}
+            if any("_seq" in inv for inv in spec.invariant):
+                # the iterated sequence itself, for invariants that talk about the elements processed so far
+                st, seqv = self._dom_to_seq(st, d)
+                ghost0["_seq"] = seqv
         for i, inv in enumerate(spec.invariant):
             self.oblige(st, "inv-init", f"#{ordn}.{i}", self.spec_goal(inv, st, ghost0),
                         descr=f"loop invariant {inv!r} on entry", node=s)
@@ -535,6 +552,8 @@ class StmtMixin:
             idx = z3.Int(fresh_name("it"))
             head = head.assume(z3.And(0 <= idx, idx <= d.length))
             ghost = {"_i": mk_int(idx), "_n": mk_int(d.length)}
+            if "_seq" in ghost0:
+                ghost["_seq"] = ghost0["_seq"]
         for inv in spec.invariant:
             head = head.assume(self.spec_bool(inv, head, ghost))
         # --- one arbitrary iteration
@@ -548,6 +567,8 @@ class StmtMixin:
             st_in = head.assume(idx < d.length)
             el = d.elem(idx)
             nxt_ghost = {"_i": mk_int(idx + 1), "_n": mk_int(d.length)}
+            if "_seq" in ghost0:
+                nxt_ghost["_seq"] = ghost0["_seq"]
             st_out = head.assume(idx == d.length)
         if self.feasible(st_in):
             st_in = self.assume_wf(st_in, el)
@@ -565,6 +586,13 @@ class StmtMixin:
                 else:
                     yield o
         if self.feasible(st_out):
+            for i, cl in enumerate(spec.exit_asserts):
+                # a cut: proved from what is known at the loop exit, then usable by everything after the loop
+                xg = dict(ghost)
+                xg["_i"] = xg.get("_n", xg.get("_i"))
+                self.oblige(st_out, "exit-assert", f"#{ordn}.{i}", self.spec_goal(cl, st_out, xg),
+                            descr=f"at loop exit: {cl!r}", node=s)
+                st_out = st_out.assume(self.spec_bool(cl, st_out, xg))
             yield from self.exec_block(s.orelse, st_out) if s.orelse else [Outcome("ok", st_out)]
 
     # ------------------------------------------------------------------ try / with
